@@ -11,14 +11,17 @@ from ..report import Ctx
 from .common import REPRESENTATION, REPR_MUT, REPR_XO
 
 LEVEL_TEXT = (
-    "The statement equates cached values with an independent traversal of every program - a value property that no "
-    "static argument in reach decides.  Decided are four structural necessary conditions: (R1) every program handed "
-    "out by a representation entry point has passed through relabel_nodes (must-pass-through on return chains of the "
-    "resolved call graph); (R2) the children enumeration used by relabel_nodes can reach list elements: no branch "
-    "shadowed by a tautological hasattr test, no run-time use of a name imported only under TYPE_CHECKING; (R3) every "
-    "call of relabel_nodes passes is_list = isinstance(node, list); (R4) the fold does not alias or modify metadata "
-    "owned by a child (the per-node type index is built from fresh lists), so reused subtrees keep their own values. "
-    "The arithmetic of the fold (node counts, distances, weighted size) is not claimed."
+    "(R1) every program handed out by a representation entry point has passed through relabel_nodes (must-pass-through on "
+    "return chains of the resolved call graph); (R2) the children enumeration used by relabel_nodes can reach list "
+    "elements: no branch shadowed by a tautological hasattr test, no run-time use of a name imported only under "
+    "TYPE_CHECKING; (R3) every call of relabel_nodes passes is_list = isinstance(node, list); (R4, R5) the fold itself is "
+    "interpreted (finite model with symbolic numbers: helpers, closures and comprehensions inlined) on an inner node with two "
+    "children - of different and of the same type - whose own folds return symbolic metadata (n_i, d_i, w_i, type index): "
+    "gengy_nodes = 1 + n_1 + n_2, gengy_distance_to_term = max(1, d_1 + 1, d_2 + 1), gengy_weighted_nodes = w_1 + w_2 + "
+    "depth, the type index holds the node itself and every node of the children's indexes in order, what is stored on the "
+    "node is what is returned to the parent, and the fold neither adopts nor extends a list owned by a child's metadata; "
+    "nothing outside relabel_nodes edits a cached index (may-mutate analysis). Decided for the default depth mode and "
+    "non-list children; list nodes are a known finding and the expansion-depthing adjustment is not decided."
 )
 
 RELABEL = "geneticengine.representations.tree.utils:relabel_nodes"
